@@ -94,6 +94,9 @@ def mk_section_class(sd, idx):
     # what read() returns: the reading driver must not depend on it ("t" always True, "h" honest: False when the content ended
     # inside the section, "n" None)
     ret = sd[2] if len(sd) > 2 else "t"
+    # where the section keeps what it read: in the framework's `data` attribute, or in an attribute of its own (`data` stays
+    # None -- the framework must not decide anything from `data`)
+    own = len(sd) > 3 and sd[3] == "own"
 
     def read(self, file, *args, **kwargs):
         lines = []
@@ -116,18 +119,21 @@ def mk_section_class(sd, idx):
                 if re.search(rx, l) is not None:
                     complete = True
                     break
-        self.data = lines
+        if own:
+            self._own = lines
+        else:
+            self.data = lines
         return True if ret == "t" else (None if ret == "n" else complete)
 
     def write(self, file, *args, **kwargs):
-        for l in self.data:
+        for l in (self._own if own else self.data):
             file.write(l)
         return True
 
     def __eq__(self, o):
-        return isinstance(o, self.__class__) and o.data == self.data
+        return isinstance(o, self.__class__) and (o._own == self._own if own else o.data == self.data)
 
-    ns = {"read": read, "write": write, "__eq__": __eq__, "__hash__": None, "__slots__": [], "_verif_idx": idx}
+    ns = {"read": read, "write": write, "__eq__": __eq__, "__hash__": None, "__slots__": ["_own"] if own else [], "_verif_idx": idx}
     return type("VSection%d_%d" % (idx, _counter[0]), (Section,), ns)
 
 
@@ -157,7 +163,7 @@ def canon_raw(data, default_cls, binary=False, cap=100000):
             d = e.data
             raw = d
         else:
-            d = e.data
+            d = e.data if e.data is not None else getattr(e, "_own", None)
             raw = (b"" if binary else "").join(d) if isinstance(d, list) else d
         idx = -1 if isinstance(e, default_cls) else getattr(type(e), "_verif_idx", -7)
         if isinstance(raw, bytes):
